@@ -29,3 +29,8 @@ package polynomial
 //@   nilable
 //@   havoc p
 //@   ensures implies(isnil(err), n == announced(p))
+
+// Read back in the order written (C08): see /verif/cmd/lvc/fieldordercheck.go
+//@ fieldorder PowerBasis
+//@   property C08
+//
